@@ -34,6 +34,48 @@ CLAIMED = {
                   "invariant for a goto cycle, lemma obligations for the two's-complement form of round-up/down; cvc "
                   "(clang AST -> z3/cvc5)",
     ),
+    'C05': dict(
+        category='proof',
+        text="Floating-point plumbing under contract with z3's IEEE-754 theory: write_raw_float_data stores the double "
+             "rounded to nearest (float) or itself (double, bit-exact unless NaN), read_raw_float_data widens exactly; "
+             "the complex reader/writer treat each part the same way, real part first; long double readers/writers copy "
+             "all 16 bytes; the floating-point branch of convert_from_object (assignment, ffi.new) and of do_cast "
+             "(ffi.cast), verified as contract instances of their own, store exactly RNE(value) for a Python float -- "
+             "infinities kept, NaN stays NaN -- and copy a long double cdata bit for bit without going through a "
+             "double; a 1-character bytes gives its byte value.",
+        design_ref='DESIGN.md section 4 C05',
+        note=COMMON_NOTE + "T-SPEC: C's (float)double = RNE on this target (battery: struct.pack('f') on special values "
+             "and random bit patterns). Values are compared modulo NaN payload. Not under contract: the complex "
+             "branches of convert_from_object/do_cast and PyComplex_AsCComplex (their leaf writers are), __float__ "
+             "objects, 1-character str sources.",
+        technique="contract-based deductive verification with z3 floating-point (RNE narrowing), contract instances for "
+                  "the float branches of two large functions; cvc (clang AST -> z3/cvc5)",
+    ),
+    'C12': dict(
+        category='proof',
+        text="The checking predicates of API mode are under contract. (1) The integer-constant getters are cut "
+             "mechanically out of the module that the real recompiler emits for a sentinel cdef and instantiated for "
+             "every C integer type of the constant (84 instances): the getter delivers (value <= 0, value mod 2^64) and "
+             "sets the 'disagrees with the cdef' flag exactly when the C value differs from the expected one -- for "
+             "every 64-bit value and every expected value; a '#define X ...', a 'static const int X;' and the "
+             "enumerators of an enum declared with '...' are never flagged. (2) realize_global_int turns a flagged "
+             "constant into ffi.error and an unflagged one into its exact value; one iteration of parse_sequel's "
+             "'[...]' loop uses a constant as an array length only if its getter flagged nothing. (3) "
+             "detect_custom_layout is exact; the API-mode instances of b_complete_struct_or_union_lock_held raise "
+             "ffi.error exactly when a checked struct's computed field offset, total size or alignment differs from "
+             "the compiler's, and adopt the compiler's numbers silently for a struct declared with '...'. (4) "
+             "read_global_var / write_global_var convert from / to the address that fetch_global_var_addr returns -- "
+             "the stored one, or whatever the module's address function returns at that moment.",
+        design_ref='DESIGN.md section 4 C12',
+        note=COMMON_NOTE + "Not decided (generated programs and the compiler are outside contracts on cffi's functions): "
+             "that the emitted offsetof()/sizeof() expressions and wrappers, once compiled, deliver the compiler's "
+             "numbers; calls returning what the C function returns (C13); the generator's flag logic is sampled on five "
+             "sentinel declarations (bounded stand-in, reported as such); do_realize_lazy_struct's field-size check and "
+             "lib_build_and_cache_attr's global-variable size check are not under contract. Known finding "
+             "C12-enum-unchecked: enumerators of an enum without '...' are not checked (the existing tests pin it).",
+        technique="contract-based deductive verification: generated getters cut from the real recompiler's output and "
+                  "instantiated per integer type, loop-body contracts, ghost call traces; cvc (clang AST -> z3/cvc5)",
+    ),
     'C20': dict(
         category='proof',
         text="ffi.new under contract: allocate_owning_object / allocate_with_allocator give a zero-filled data area of "
